@@ -135,3 +135,24 @@ def dense_column_configs(rng, count):
 def dense_column_cases(rng, name, count, trace=False, cb_choices=('none', 'buf', 'null', 'mix'), apis=('stream', 'stream', 'stream', 'table')):
     return [decoder_case('%s%d' % (name, j), cfg, order, api=apis[j % len(apis)], finish=True, cb=rng.choice(cb_choices), trace=trace)
             for j, (cfg, order) in enumerate(dense_column_configs(rng, count))]
+
+
+def lowrate_ldpc_cases(rng, name, count, trace=False):
+    """small-k, low-rate LDPC sessions (k*N1 < 2(n-k): the RFC's construction must add extra entries), even and odd N1, with
+    histories that depend on the last repair symbols: all sources lost, one source lost with repairs in descending order, random"""
+    cases = []
+    for j in range(count):
+        k = rng.randint(1, 6); r = rng.randint(max(4, k + 1), 16); N1 = rng.choice([4, 4, 6, 3, 5, min(r, 8)])
+        N1 = max(3, min(N1, r))
+        cfg = Cfg('ldpc', k, r, N1=N1, seed=rng.choice([1, 2, 3, rng.randint(1, 2 ** 31 - 2)]), payload=rng.choice(['id', 'rand']), pseed=j,
+                  length=None if j % 2 else rng.choice([1, 3, 8]))
+        mode = j % 4
+        reps = list(range(k, cfg.n))
+        if mode == 0: order = reps[::-1]
+        elif mode == 1:
+            lost = rng.randrange(k); order = reps[::-1] + [e for e in range(k) if e != lost]
+        elif mode == 2: order = random_order(rng, rng.sample(range(cfg.n), rng.randint(k, cfg.n)), 0.2)
+        else: order = [cfg.n - 1] + random_order(rng, rng.sample(range(cfg.n - 1), rng.randint(max(0, k - 1), cfg.n - 1)), 0.1)
+        cases.append(decoder_case('%s%d' % (name, j), cfg, order, api='stream' if j % 3 else 'table', finish=(j % 5 != 0),
+                                  cb=['none', 'buf', 'null', 'mix'][(j // 2) % 4], trace=trace))
+    return cases
